@@ -52,6 +52,24 @@ func spPage(n int64, first *int64) []*spItem {
 	return items
 }
 
+func spFilter(name string) func(ctx context.Context, it *spItem) (string, error) {
+	return func(ctx context.Context, it *spItem) (string, error) {
+		if err := failHook(ctx, "SpItem", it.Id, "filter:"+name, false); err != nil {
+			return "", err
+		}
+		return fmt.Sprintf("item %d", it.Id), nil
+	}
+}
+
+func spSort(name string) func(ctx context.Context, it *spItem) (int64, error) {
+	return func(ctx context.Context, it *spItem) (int64, error) {
+		if err := failHook(ctx, "SpItem", it.Id, "sort:"+name, false); err != nil {
+			return 0, err
+		}
+		return it.Id, nil
+	}
+}
+
 func buildSpecialSchema() (*graphql.Schema, error) {
 	s := schemabuilder.NewSchema()
 	q := s.Query()
@@ -85,8 +103,13 @@ func buildSpecialSchema() (*graphql.Schema, error) {
 		}
 		return spItems(args.N), nil
 	}, schemabuilder.Paginated,
-		schemabuilder.FilterField("label", func(it *spItem) string { return fmt.Sprintf("item %d", it.Id) }),
-		schemabuilder.SortField("rank", func(it *spItem) int64 { return -it.Id }))
+		// text filter and sort functions are user code too: they may fail. Every
+		// label contains "item" and ranks ascend with the id, so neither changes
+		// which items are on a page.
+		schemabuilder.FilterField("label", spFilter("label")),
+		schemabuilder.FilterField("labelExp", spFilter("labelExp"), schemabuilder.Expensive),
+		schemabuilder.SortField("rank", spSort("rank")),
+		schemabuilder.SortField("rankExp", spSort("rankExp"), schemabuilder.Expensive))
 	h.FieldFunc("external", func(ctx context.Context, h *spHolder, args spExtArgs) ([]*spItem, schemabuilder.PaginationInfo, schemabuilder.PostProcessOptions, error) {
 		info := schemabuilder.PaginationInfo{TotalCountFunc: func() int64 { return args.N }, HasNextPage: args.First != nil && *args.First < args.N}
 		if err := failHook(ctx, "SpHolder", h.Id, "external", false); err != nil {
@@ -129,6 +152,7 @@ func buildSpecialSchema() (*graphql.Schema, error) {
 func makeSpecialScenario(r *rand.Rand) (*scenario, bool, bool) {
 	sc := &scenario{w: gen.NewWorld(1, 1, 1), plan: &plan{res: reactive.NewResource()}, vars: map[string]interface{}{}}
 	mutation := r.Intn(5) == 0
+	zero := r.Intn(2) == 0
 	alias := func(name string) (string, string) { // text prefix, response key
 		if r.Intn(2) == 0 {
 			a := fmt.Sprintf("%s_%d", name[:1], r.Intn(90)+10)
@@ -137,10 +161,14 @@ func makeSpecialScenario(r *rand.Rand) (*scenario, bool, bool) {
 		return "", name
 	}
 	var b strings.Builder
-	add := func(typ string, id int64, field string, path ...string) {
+	// blockers[k]: trace entries that must have succeeded for entry k to run
+	var blockers [][]int
+	add := func(deps []int, typ string, id int64, field string, path ...string) int {
 		sc.trace = append(sc.trace, gen.Resolution{Type: typ, ID: id, Field: field, Path: append([]string{}, path...)})
+		blockers = append(blockers, append([]int{}, deps...))
+		return len(sc.trace) - 1
 	}
-	itemSel := func(base []string, ids []int64) string {
+	itemSel := func(deps []int, base []string, ids []int64) string {
 		da, dk := alias("detail")
 		out := "id " + da + "detail"
 		heavy := r.Intn(2) == 0
@@ -155,21 +183,50 @@ func makeSpecialScenario(r *rand.Rand) (*scenario, bool, bool) {
 		}
 		for k, id := range ids {
 			p := append(append([]string{}, base...), "edges", fmt.Sprint(k), "node")
-			add("SpItem", id, "detail", append(p, dk)...)
+			add(deps, "SpItem", id, "detail", append(p, dk)...)
 			if heavy {
-				add("SpItem", id, "heavy", append(p, hk)...)
+				add(deps, "SpItem", id, "heavy", append(p, hk)...)
 			}
 		}
 		return out
 	}
-	conn := func(base []string, hid int64) {
+	conn := func(parent int, base []string, hid int64) {
 		n := int64(r.Intn(6))
 		first := int64(1 + r.Intn(4))
-		names := []string{"managed", "external", "externalPost"}
+		names := []string{"managed", "managed", "external", "externalPost"}
 		name := names[r.Intn(len(names))]
 		ap, ak := alias(name)
 		path := append(append([]string{}, base...), ak)
-		add("SpHolder", hid, name, path...)
+		self := add([]int{parent}, "SpHolder", hid, name, path...)
+		deps := []int{self}
+		// a failing resolver that still returns its items has them filtered and
+		// sorted before its own error is looked at
+		fdeps := []int{self}
+		if !zero {
+			fdeps = []int{parent}
+		}
+		extra := ""
+		if name == "managed" {
+			// the filter functions run first, for every item; then the sort functions
+			if r.Intn(2) == 0 {
+				fn := []string{"label", "labelExp"}[r.Intn(2)]
+				extra += fmt.Sprintf(`, filterText: "item", filterTextFields: ["%s"]`, fn)
+				var mine []int
+				for id := int64(1); id <= n; id++ {
+					mine = append(mine, add(fdeps, "SpItem", id, "filter:"+fn, path...))
+				}
+				deps, fdeps = append(deps, mine...), append(fdeps, mine...)
+			}
+			if r.Intn(2) == 0 {
+				fn := []string{"rank", "rankExp"}[r.Intn(2)]
+				extra += fmt.Sprintf(`, sortBy: "%s"`, fn)
+				var mine []int
+				for id := int64(1); id <= n; id++ {
+					mine = append(mine, add(fdeps, "SpItem", id, "sort:"+fn, path...))
+				}
+				deps, fdeps = append(deps, mine...), append(fdeps, mine...)
+			}
+		}
 		cnt := n
 		if first < cnt {
 			cnt = first
@@ -178,38 +235,39 @@ func makeSpecialScenario(r *rand.Rand) (*scenario, bool, bool) {
 		for i := range ids {
 			ids[i] = int64(i + 1)
 		}
-		fmt.Fprintf(&b, " %s%s(first: %d, n: %d) { totalCount edges { node { %s } } pageInfo { hasNextPage hasPrevPage } }", ap, name, first, n, itemSel(path, ids))
+		fmt.Fprintf(&b, " %s%s(first: %d, n: %d%s) { totalCount edges { node { %s } } pageInfo { hasNextPage hasPrevPage } }", ap, name, first, n, extra, itemSel(deps, path, ids))
 	}
 	if mutation {
 		sc.shape = "mutation"
 		if r.Intn(2) == 0 {
 			ap, ak := alias("bump")
-			add("Mutation", 0, "bump", ak)
+			add(nil, "Mutation", 0, "bump", ak)
 			fmt.Fprintf(&b, "mutation { %sbump(by: %d) }", ap, r.Intn(9))
 		} else {
 			ap, ak := alias("make")
-			add("Mutation", 0, "make", ak)
+			root := add(nil, "Mutation", 0, "make", ak)
 			fmt.Fprintf(&b, "mutation { %smake(id: 4) { id", ap)
-			conn([]string{ak}, 4)
+			conn(root, []string{ak}, 4)
 			b.WriteString(" } }")
 		}
 	} else {
 		sc.shape = "query"
 		ap, ak := alias("holder")
 		hid := int64(1 + r.Intn(5))
-		add("Query", 0, "holder", ak)
+		root := add(nil, "Query", 0, "holder", ak)
 		fmt.Fprintf(&b, "{ %sholder(id: %d) { id", ap, hid)
 		used := map[string]bool{}
 		for k, nc := 0, 1+r.Intn(2); k < nc; k++ {
 			before := b.Len()
 			nt := len(sc.trace)
-			conn([]string{ak}, hid)
+			conn(root, []string{ak}, hid)
 			key := sc.trace[nt].Path[1]
 			if used[key] { // same response key twice with other arguments: not a valid query
 				s := b.String()[:before]
 				b.Reset()
 				b.WriteString(s)
 				sc.trace = sc.trace[:nt]
+				blockers = blockers[:nt]
 				continue
 			}
 			used[key] = true
@@ -231,29 +289,35 @@ func makeSpecialScenario(r *rand.Rand) (*scenario, bool, bool) {
 		}
 		sc.plan.fails = append(sc.plan.fails, newFailure(r, k, t.Type, t.Field, ids))
 	}
-	// a failing resolver stops the resolutions below it: only failures whose
-	// instance is reached count as on the path
+	// a failing function stops what depends on it: only failures with an instance
+	// none of whose (transitive) blockers fails count as on the path
+	fails := func(k int) bool {
+		for _, g := range sc.plan.fails {
+			if g.matches(sc.trace[k].Type, sc.trace[k].ID, sc.trace[k].Field) {
+				return true
+			}
+		}
+		return false
+	}
+	var blocked func(k int) bool
+	blocked = func(k int) bool {
+		for _, d := range blockers[k] {
+			if fails(d) || blocked(d) {
+				return true
+			}
+		}
+		return false
+	}
 	for _, f := range sc.plan.fails {
-		for _, t := range sc.trace {
-			if !f.matches(t.Type, t.ID, t.Field) {
-				continue
-			}
-			reached := true
-			for _, g := range sc.plan.fails {
-				for _, u := range sc.trace {
-					if g != f && g.matches(u.Type, u.ID, u.Field) && len(u.Path) < len(t.Path) && pathEq(u.Path, t.Path[:len(u.Path)]) {
-						reached = false
-					}
-				}
-			}
-			if reached {
+		for k, t := range sc.trace {
+			if f.matches(t.Type, t.ID, t.Field) && !blocked(k) {
 				sc.onPath = append(sc.onPath, f)
 				break
 			}
 		}
 	}
 	sc.shape += fmt.Sprintf("|%d-resolutions", len(sc.trace))
-	return sc, mutation, r.Intn(2) == 0
+	return sc, mutation, zero
 }
 
 func executeSpecial(schema *graphql.Schema, sc *scenario, p *plan, zero bool, inRerunner bool) (interface{}, error, string) {
